@@ -17,12 +17,28 @@ Ltac inv_bind H :=
   let a := fresh "v" in let E := fresh "E" in
   apply bind_ok in H; destruct H as (a & E & H).
 
+(* decompose an equation between tuples/options into its components and
+   substitute only the variables that occur as one side of a component *)
+Ltac eq_subst H :=
+  lazymatch type of H with
+  | (?a, ?b) = (?c, ?d) =>
+      let H1 := fresh "Hq" in let H2 := fresh "Hq" in
+      assert (H1 : a = c) by congruence; assert (H2 : b = d) by congruence; clear H;
+      eq_subst H1; eq_subst H2
+  | Some ?a = Some ?b =>
+      let H1 := fresh "Hq" in assert (H1 : a = b) by congruence; clear H; eq_subst H1
+  | ?x = ?y => first [ is_var y; subst y | is_var x; subst x | idtac ]
+  end.
+
 Ltac ok_inv :=
   repeat match goal with
-  | H : Ok _ = Ok _ |- _ => inversion H; subst; clear H
+  | H : Ok ?a = Ok ?b |- _ =>
+      let H1 := fresh "Hq" in assert (H1 : a = b) by congruence; clear H; eq_subst H1
   | H : Err _ = Ok _ |- _ => discriminate H
-  | H : inl _ = inl _ |- _ => inversion H; subst; clear H
-  | H : inr _ = inr _ |- _ => inversion H; subst; clear H
+  | H : inl ?a = inl ?b |- _ =>
+      let H1 := fresh "Hq" in assert (H1 : a = b) by congruence; clear H; eq_subst H1
+  | H : inr ?a = inr ?b |- _ =>
+      let H1 := fresh "Hq" in assert (H1 : a = b) by congruence; clear H; eq_subst H1
   | H : inl _ = inr _ |- _ => discriminate H
   | H : inr _ = inl _ |- _ => discriminate H
   end.
